@@ -197,12 +197,12 @@ Proof. unfold lvl_pipe, lvl_or, lvl_and, lvl_cmp, lvl_flatten, lvl_proj_stop, lv
 Section WithNum.
 Context {NumO : NumOps}.
 Lemma or_left_assoc (a b c : expr) :
-  wp a = true -> wp b = true -> wp c = true ->
+  wp a = true -> wp b = true -> wp c = true -> npos b = true -> npos c = true ->
   lvl_or <= rl a -> lvl_or < lmin b -> lvl_or < lmin c -> lvl_or <= rl b ->
   wp (EOr (EOr a b) c) = true /\ wp (EOr a (EOr b c)) = false.
 Proof.
-  intros Ha Hb Hc H1 H2 H3 H4. split.
-  - cbn [wp rl lmin]. rewrite Ha, Hb, Hc. cbn [andb].
+  intros Ha Hb Hc Nb Nc H1 H2 H3 H4. split.
+  - cbn [wp rl lmin]. rewrite Ha, Hb, Hc, Nb, Nc. cbn [andb].
     repeat (apply andb_true_iff; split); try lia; reflexivity.
   - cbn [wp rl lmin]. rewrite Ha, Hb, Hc. cbn [andb].
     assert (E : (lvl_or <? Z.min (lmin b) lvl_or) = false) by (unfold lvl_or in *; lia).
